@@ -1,7 +1,7 @@
 (* C10 -- the statements of Properties/C10.v, proved from the lemmas of C10_list / C10_slice / C10_stack. *)
 From Coq Require Import Reals ZArith List Lia Bool.
-From PR Require Import Base.Num Base.RNum Base.Slice Model.Grid Model.SliceArea Model.Stack Gen.GenC10
-     Proofs.C10_list Proofs.C10_slice Proofs.C10_stack.
+From PR Require Import Base.Num Base.RNum Base.ZX Base.Slice Model.Grid Model.SliceArea Model.Stack Gen.GenC10
+     Model.LonlatPaths Proofs.C10_list Proofs.C10_slice Proofs.C10_stack Proofs.C10_gen Proofs.C10_paths.
 Import ListNotations.
 Open Scope Z_scope.
 
@@ -68,19 +68,19 @@ Proof.
 Qed.
 
 Lemma main_split_concat_id : forall g k, wf_g g -> 1 <= k <= gheight g - 1 ->
-  exists m, concatenate_area_defs RO (gen_area_getitem RO g (rows_key 0 k))
-                                     (gen_area_getitem RO g (rows_key k (gheight g))) = Some m /\
+  exists m, gen_concatenate_area_defs RO (gen_area_getitem RO g (rows_key 0 k))
+                                         (gen_area_getitem RO g (rows_key k (gheight g))) 0 = Some m /\
             g_area m = g_area g /\ g_crs m = g_crs g.
-Proof. intros g k W [H1 H2]. rewrite !gen_getitem_eq. apply split_concat; assumption. Qed.
+Proof. intros g k W [H1 H2]. rewrite gen_concat_eq, !gen_getitem_eq. apply split_concat; assumption. Qed.
 
 Lemma main_split_concat_id_rev_if : forall g k, wf_g g -> 1 <= k <= gheight g - 1 ->
   isclose RO (ymin (g_area (gen_area_getitem RO g (rows_key k (gheight g)))))
              (ymax (g_area (gen_area_getitem RO g (rows_key 0 k)))) = false ->
-  exists m, concatenate_area_defs RO (gen_area_getitem RO g (rows_key k (gheight g)))
-                                     (gen_area_getitem RO g (rows_key 0 k)) = Some m /\
+  exists m, gen_concatenate_area_defs RO (gen_area_getitem RO g (rows_key k (gheight g)))
+                                         (gen_area_getitem RO g (rows_key 0 k)) 0 = Some m /\
             g_area m = g_area g /\ g_crs m = g_crs g.
 Proof.
-  intros g k W [H1 H2]. rewrite !gen_getitem_eq. intros Hn. pose proof W as [Hw Hh].
+  intros g k W [H1 H2]. rewrite gen_concat_eq, !gen_getitem_eq. intros Hn. pose proof W as [Hw Hh].
   destruct (concat_windows_rev g 0 k (gheight g) _ _
               (rows_key_area g 0 k W ltac:(lia) ltac:(lia) ltac:(lia))
               (rows_key_area g k (gheight g) W ltac:(lia) ltac:(lia) ltac:(lia))
@@ -147,3 +147,42 @@ Proof.
   - intros k Hk. apply (swath_split_concat s k w R1 R2 E Hk).
   - intros t rs cs H1 H2. apply swath_concat_slice; assumption.
 Qed.
+
+(* ---- wave 2: translated kernels, other code paths, histories *)
+Lemma main_kernels_translation : forall (T : Type) (OP : ops T),
+  (forall a1 a2 : garea T, gen_combine_area_extents_vertical OP a1 a2 = combine_area_extents_vertical OP (g_area a1) (g_area a2)) /\
+  (forall g1 g2 : garea T, gen_concatenate_area_defs OP g1 g2 0 = concatenate_area_defs OP g1 g2) /\
+  (forall rs off (d : garea T), okey (gen_local_row_slice rs off d) = local_row_slice rs off (gheight d)) /\
+  (forall off (d : garea T), gen_stack_offset_step off d = off + gheight d).
+Proof.
+  intros T OP. split; [intros; apply gen_combine_eq|]. split; [intros; apply gen_concat_eq|]. split; intros; reflexivity.
+Qed.
+
+Lemma main_dask_chunks_independent : forall (T C : Type) (OP : ops T) (f : T -> T -> C) (a : area T) cy cx,
+  Forall (fun x => 0 <= x) cy -> Forall (fun x => 0 <= x) cx -> sumZ cy = height a -> sumZ cx = width a ->
+  dask_grid OP f a cy cx = grid_of f (proj_vector_x OP a) (proj_vector_y OP a) /\
+  forall key, np_slice2 key (dask_grid OP f a cy cx) =
+              grid_of f (np_slice (snd key) (proj_vector_x OP a)) (np_slice (fst key) (proj_vector_y OP a)).
+Proof.
+  intros T C OP f a cy cx Hy Hx Sy Sx. rewrite (dask_grid_eq OP f a cy cx Hy Hx Sy Sx). split; [reflexivity|].
+  intros key. symmetry. apply grid_slice_commute.
+Qed.
+
+Lemma main_area_cache_history : forall (T C : Type) (OP : ops T) (inv : T -> T -> C) (g : garea T)
+    (calls : list (option (oslice * oslice) * bool)),
+  area_history OP inv g None calls = map (fun o => apply_ds (fst o) (area_lonlats OP inv g None)) calls.
+Proof. intros. apply area_history_spec. left. reflexivity. Qed.
+
+Lemma main_stack_cache_history : forall (T C : Type) (OP : ops T) (inv : T -> T -> C) (defs : list (garea T)) st os,
+  state_ok OP inv defs st ->
+  fst (shistory OP inv defs st os) = map (sop_spec OP inv defs) os /\
+  forall ds flag, st_last (fst (sstep OP inv defs (snd (shistory OP inv defs st os)) (StackCall ds flag)))
+                  = Some (stacked_lonlats OP inv ds defs).
+Proof.
+  intros T C OP inv defs st os H. destruct (shistory_spec OP inv defs os st H) as [E1 E2]. split; [exact E1|].
+  intros ds flag. destruct (sstep_spec OP inv defs _ (StackCall ds flag) E2) as (_ & _ & E). exact E.
+Qed.
+
+Lemma main_swath_append_history : forall (A : Type) (s : swath A) (ts : list (swath A)),
+  swath_append_all s ts = (fst s ++ concat (map fst ts), snd s ++ concat (map snd ts)).
+Proof. intros. apply swath_append_all_spec. Qed.
